@@ -1850,3 +1850,113 @@ _jobs_before_listclear = jobs
 
 def jobs(tier):
     return _jobs_before_listclear(tier) + [(h_list_clear, (), 900)]
+
+
+# ------------------------------------------------------------------------------------------------ C14: clear() of the leaf builders and the snapshots taken before it
+LEAF_CLEAR = {   # class -> (source, mangled class, element kind of its buffers in field order, entries left after clear per buffer)
+    'BoolBuilder': (BOB, '11BoolBuilder', [('i', 8)], [0]),
+    'Int64Builder': (I64B, '12Int64Builder', [('i', 64)], [0]),
+    'Float64Builder': (F64B, '14Float64Builder', [('f', 64)], [0]),
+    'Complex128Builder': (C128B, '17Complex128Builder', [('f', 64)], [0]),
+    'DatetimeBuilder': ('src/libawkward/builder/DatetimeBuilder.cpp', '15DatetimeBuilder', [('i', 64)], [0]),
+    'StringBuilder': (SB, '13StringBuilder', [('i', 64), ('i', 8)], [1, 0]),        # offsets (one entry, 0, is left) and bytes
+}
+
+
+@guard
+def h_leaf_clear(cls):
+    """clear() of a leaf builder from any state: every buffer it appends to afterwards is a fresh one (the old buffers, which snapshots taken
+    before share, are neither written nor kept), and the builder is empty again (a string builder keeps the single offset 0)"""
+    from .cpp01 import struct_of
+    src, mangled, kinds, left = LEAF_CLEAR[cls]
+    mod = module_of(src)
+    sym = '_ZN7awkward%s5clearEv' % mangled
+    fo, sz, al, fields = mod.types.struct_layout(struct_of(mod, sym))
+    bufs = [k for k, f in enumerate(fields) if 'GrowableBuffer' in f]
+    if len(bufs) != len(kinds):
+        raise Unsupported('%s: %d GrowableBuffer fields, expected %d (%s)' % (cls, len(bufs), len(kinds), fields))
+    stubs = dict(COMMON_STUBS)
+    m = MCtx([src, GB, 'src/libawkward/builder/ArrayBuilderOptions.cpp', 'src/libawkward/kernel-dispatch.cpp'], unwind=8, stubs=stubs)
+    m.record('ctrl', {0: (NULL, 8), 8: (z3.BitVecVal(1, 32), 4), 12: (z3.BitVecVal(1, 32), 4)})
+    st0 = State({}, m.mem, z3.BoolVal(True))
+    vt = m.eng.global_ptr(st0, '@_ZTVN7awkward%sE' % mangled, mod)
+    cells = {0: (Ptr(vt.obj, 16), 8), 8: (Ptr('b', 0), 8), 16: (Ptr('ctrl', 0), 8)}
+    # ArrayBuilderOptions of the builder itself (initial 8, resize 1.5) wherever the layout has one
+    for k, f in enumerate(fields):
+        if 'ArrayBuilderOptions' in f and 'GrowableBuffer' not in f:
+            cells.update({fo[k]: (BV(8), 8), fo[k] + 8: (z3.FPVal(1.5, z3.Float64()), 8)})
+    old, lens = [], []
+    for j, (k, kind) in enumerate(zip(bufs, kinds)):
+        n, res = m.bv('length%d' % j), m.bv('reserved%d' % j)
+        m.assume(n >= left[j], n <= res, res >= 1, res <= 2 ** 20)
+        buf = m.array('old%d' % j, kind, res)
+        cells.update({fo[k]: (BV(8), 8), fo[k] + 8: (z3.FPVal(1.5, z3.Float64()), 8), fo[k] + 16: (buf, 8), fo[k] + 24: (NULL, 8), fo[k] + 32: (n, 8), fo[k] + 40: (res, 8)})
+        old.append(m.mem.o['old%d' % j].arr); lens.append(n)
+    for k, f in enumerate(fields):
+        if fo[k] not in cells and ('basic_string' in f):
+            cells.update({fo[k]: (Ptr('b', fo[k] + 16), 8), fo[k] + 8: (BV(0), 8), fo[k] + 16: (z3.BitVecVal(0, 8), 1)})
+    this = m.record('b', cells)
+    out = m.call(sym, [this])
+    obls = [('clear does not raise', out.raised)]
+    j_ = z3.BitVec('j!pos', 64)
+    for j, k in enumerate(bufs):
+        newptr, newlen = m.cell('b', fo[k] + 16), m.cell('b', fo[k] + 32)
+        still_old = z3.Or([g for g, q in nodeh_ptr_cases(newptr) if q.obj == 'old%d' % j] + [z3.BoolVal(False)])
+        a1 = m.mem.o['old%d' % j].arr
+        obls += [('buffer %d: %d entries are left' % (j, left[j]), newlen != left[j]),
+                 ('buffer %d: the builder no longer appends into the buffer that snapshots share' % j, still_old),
+                 ('buffer %d: the old entries (shared with snapshots) are untouched' % j, z3.And(j_ >= 0, j_ < lens[j], z3.Select(a1, j_) != z3.Select(old[j], j_)))]
+    def replay(model, ent_):
+        import subprocess, os
+        try:
+            exe = fullnative_link(LEAF_CLEAR_DRIVER)
+        except Exception as e:      # noqa
+            return False, 'replay driver did not build: %s' % str(e)[-600:], {}
+        r = subprocess.run([exe, cls], capture_output=True, text=True, timeout=30,
+                           env=dict(os.environ, ASAN_OPTIONS='detect_leaks=0', UBSAN_OPTIONS='halt_on_error=1:exitcode=87'), errors='replace')
+        payload = dict(native=r.stdout.strip()[:400])
+        if r.returncode != 0:
+            return True, '%s: three values, snapshot, clear(), three other values: %s' % (cls, r.stdout.strip()[:300] or r.stderr[-200:]), payload
+        return False, 'native builder agrees (%s)' % r.stdout.strip()[:200], payload
+    return mdischarge(m, '%s::clear' % cls, obls, [], replay=replay, extra=dict(bounds='any buffer lengths up to the reserved capacities <= 2^20'))
+
+
+LEAF_CLEAR_DRIVER = r'''
+#include <cstdio>
+#include <string>
+#include <complex>
+#include "awkward/builder/ArrayBuilder.h"
+#include "awkward/builder/ArrayBuilderOptions.h"
+#include "awkward/Content.h"
+using namespace awkward;
+static void put(ArrayBuilder& b, const std::string& cls, int v) {
+  if (cls == "BoolBuilder") b.boolean(v % 2 == 1);
+  else if (cls == "Int64Builder") b.integer(v);
+  else if (cls == "Float64Builder") b.real(v + 0.5);
+  else if (cls == "Complex128Builder") b.complex(std::complex<double>(v, -v));
+  else if (cls == "DatetimeBuilder") b.datetime(v, "datetime64[s]");
+  else b.string(std::string((size_t)(v % 3 + 1), (char)('a' + v % 26)));
+}
+static std::string show(const ContentPtr& x, const std::string& cls) { return cls == "DatetimeBuilder" ? x.get()->tostring() : x.get()->tojson(false, 10); }
+int main(int argc, char** argv) {
+  std::string cls = argv[1];
+  ArrayBuilder b(ArrayBuilderOptions(8, 1.5)), fresh(ArrayBuilderOptions(8, 1.5));
+  for (int v = 1; v <= 3; v++) put(b, cls, v);
+  ContentPtr snap = b.snapshot();
+  std::string before = show(snap, cls);
+  b.clear();
+  for (int v = 7; v <= 9; v++) { put(b, cls, v); put(fresh, cls, v); }
+  std::string after = show(snap, cls);
+  std::string now = show(b.snapshot(), cls), want = show(fresh.snapshot(), cls);
+  if (cls == "DatetimeBuilder") { size_t p; while ((p = now.find("at=\"0x")) != std::string::npos) now.erase(p, 20); while ((p = want.find("at=\"0x")) != std::string::npos) want.erase(p, 20); }
+  printf("snapshot before=%s after=%s; refilled=%s fresh=%s\n", before.c_str(), after.c_str(), now.c_str(), want.c_str());
+  return (before == after && now == want) ? 0 : 1;
+}
+'''
+
+
+_jobs_before_leafclear = jobs
+
+
+def jobs(tier):
+    return _jobs_before_leafclear(tier) + [(h_leaf_clear, (c,), 900) for c in LEAF_CLEAR]
